@@ -302,6 +302,15 @@ fn generate(cli: &Cli) -> Vec<Case> {
                         let sc_v = apply(&sc, pos, vec![Out::Frame(pos.frame[..cut].to_vec())], true);
                         out.push(Case { sc: sc_v, state: state.clone(), class: "truncated-then-eof", detail: cut.to_string(), must_err: true, refuse_after: None, max_frame });
                     }
+                    // 5b. a frame that ends in the middle of its packet-id VarInt, with the next frame
+                    // already buffered behind it (one segment)
+                    for head in [vec![0x01u8, 0x80], vec![0x01, 0xff], vec![0x02, 0x80, 0x80], vec![0x03, 0xff, 0xff, 0xff], vec![0x04, 0x80, 0x80, 0x80, 0x80]] {
+                        let mut bytes = head.clone();
+                        bytes.extend_from_slice(&pos.frame);
+                        bytes.extend_from_slice(&pos.frame);
+                        let sc_v = apply(&sc, pos, vec![Out::Frame(bytes)], true);
+                        out.push(Case { sc: sc_v, state: state.clone(), class: "frame-ends-inside-id-varint", detail: head.len().to_string(), must_err: false, refuse_after: None, max_frame });
+                    }
                     // 6. random bytes instead of the frame, then EOF
                     for _ in 0..4 {
                         let len = rng.range(1, 300) as usize;
